@@ -663,14 +663,20 @@ pub fn exhaustive_item(root: u64, k: u64, sup: &SupDesc, acc: &mut Acc, fps: &Di
 /// function of any real server (it need not be super-additive).
 pub struct SynthSbf {
     pub inc: Vec<bool>,
+    cum: Vec<u64>,
 }
 
 impl SynthSbf {
+    pub fn new(inc: Vec<bool>) -> SynthSbf {
+        let mut cum = vec![0u64; inc.len() + 1];
+        for i in 0..inc.len() {
+            cum[i + 1] = cum[i] + inc[i] as u64;
+        }
+        SynthSbf { inc, cum }
+    }
     pub fn value(&self, delta: u64) -> u64 {
         let n = self.inc.len() as u64;
-        let ones = self.inc.iter().filter(|b| **b).count() as u64;
-        let head: u64 = self.inc[..(delta % n) as usize].iter().filter(|b| **b).count() as u64;
-        (delta / n) * ones + head
+        (delta / n) * self.cum[n as usize] + self.cum[(delta % n) as usize]
     }
 }
 
@@ -700,7 +706,7 @@ pub fn synthetic_item(root: u64, k: u64, acc: &mut Acc, fps: &Distinct) {
     if !inc.iter().any(|b| *b) {
         inc.push(true);
     }
-    let sbf = SynthSbf { inc: inc.clone() };
+    let sbf = SynthSbf::new(inc.clone());
     let ones = inc.iter().filter(|b| **b).count() as u64;
     acc.counters.inc("runs");
     acc.counters.inc("runs_nontrivial");
@@ -708,6 +714,8 @@ pub fn synthetic_item(root: u64, k: u64, acc: &mut Acc, fps: &Distinct) {
     let fpv = hash_str(&bits(&inc)) ^ 0x51;
     fps.insert(fpv);
     acc.digest_add(fpv);
+    let n_inc = sbf.inc.len() as u64;
+    let (mut t, mut val_t) = (0u64, 0u64);
     for dem in 0..=(3 * ones + 2) {
         let claimed = match guarded(|| du(sbf.service_time(s(dem)))) {
             Some(v) => v,
@@ -721,8 +729,11 @@ pub fn synthetic_item(root: u64, k: u64, acc: &mut Acc, fps: &Distinct) {
                 return;
             }
         };
-        let mut t = 0u64;
-        while sbf.value(t) < dem {
+        // least t with value(t) >= dem (t is non-decreasing in dem: continue where we stopped)
+        while val_t < dem {
+            if sbf.inc[(t % n_inc) as usize] {
+                val_t += 1;
+            }
             t += 1;
         }
         if claimed != t {
@@ -882,7 +893,7 @@ pub fn replay_supply(path: &str, text: &str) -> i32 {
             eprintln!("HARNESS-ERROR: bad curve");
             return 2;
         }
-        let sbf = SynthSbf { inc };
+        let sbf = SynthSbf::new(inc);
         let dem = field("demand").unwrap_or(1);
         let claimed = match guarded(|| du(sbf.service_time(s(dem)))) {
             Some(v) => v,
